@@ -145,7 +145,7 @@ def pow (thr : Rat) (a b : Q) : Out :=
     let d := Dim.pow thr a.dim x
     if isInt x then
       let k : Int := x.num
-      if k < 0 ∧ a.val.hasZero then
+      if decide (x < 0) && a.val.hasZero then
         (match a.val with | .scalar _ => .err .math | .array _ => .err .nonfinite)
       else .val (a.val.map (· ^ k)) d
     else
@@ -157,7 +157,7 @@ def pow (thr : Rat) (a b : Q) : Out :=
         else .err .complexPower
       | .array l =>
         if l.any (fun q => decide (q < 0)) then .err .nonfinite        -- nan entries
-        else if a.val.hasZero ∧ x < 0 then .err .nonfinite             -- inf entries
+        else if a.val.hasZero && decide (x < 0) then .err .nonfinite   -- inf entries
         else .inexact (some l.length) d
 /-- `__rpow__` -/
 def rpow (_a _b : Q) : Out := .err .typeError
